@@ -863,8 +863,11 @@ pub fn check_c01(rep: &mut Report) {
             failing.push(f);
         }
     }
+    let by_signal: Vec<Cfg> = failing.iter().filter(|c| c.targets.len() <= 2).map(|c| { let mut c = c.clone(); c.fail_by_signal = true; c }).collect();
     let out = sweep(failing, &mk, dl, 3_000_000);
     fill_report(rep, &out, "one-shot, reduced: one build may fail");
+    let out = sweep(by_signal, &mk, dl, 3_000_000);
+    fill_report(rep, &out, "one-shot, reduced: one build may die of a signal (graphs <=2 targets)");
     // watch mode: after each out-of-date notice
     let out = sweep(watch_cfgs(2, 2, if rep.thorough() { 2 } else { 1 }), &mk, dl, 3_000_000);
     fill_report(rep, &out, "watch, reduced: graphs <=2 targets, notification budget 1 (2 thorough)");
